@@ -83,6 +83,26 @@ def r1_error_codes(ctx, rule="C05.R1"):
     ctx.require(rule, 20)
 
 
+def _after_return(prog, fn, seen):
+    """first non-label emission after a call of emitter fn in each of its callers (recursively while
+    the caller returns without emitting).  The walk ends by itself at the statement loop, whose next
+    iteration starts with the next statement's own mark."""
+    if fn.id in seen:
+        return []
+    seen.add(fn.id)
+    bad = []
+    for g in emit.generator_fns(prog):
+        gevs = emit.events(prog, g)
+        for b, ev in gevs.items():
+            if ev.kind != "gen" or ev.callee is None or ev.callee.id != fn.id:
+                continue
+            found, ret = emit.first_events_after(g.body, gevs, b, stop=lambda x: x.kind != "label")
+            bad += [(x, p, g) for x, p in found if x.kind != "mark"]
+            if ret:
+                bad += _after_return(prog, g, seen)
+    return bad
+
+
 def r2_mark_after_block(ctx, rule="C05.R2"):
     prog = ctx.prog
     n_sites = 0
@@ -94,16 +114,20 @@ def r2_mark_after_block(ctx, rule="C05.R2"):
             what = mir.short_origin(e.args[1]) if len(e.args) > 1 else "?"
             key = "%s:%s:block(%s)" % (rule, fn.name, what)
             loc = "%s:%s" % (fn.file, e.line)
-            found, _ret = emit.first_events_after(
+            found, ret = emit.first_events_after(
                 fn.body, evs, e.bb, stop=lambda x: x.kind != "label")
-            bad = [(x, p) for x, p in found if x.kind != "mark"]
+            bad = [(x, p, fn) for x, p in found if x.kind != "mark"]
+            if ret and not bad:
+                # the block is the last thing this emitter emits on some path: what the callers emit
+                # next is what follows the block
+                bad = _after_return(prog, fn, set())
             if bad:
-                x, path = bad[0]
+                x, path, where = bad[0]
                 ctx.violation(rule, key, loc,
-                              "after the user block %s the next emitted instruction is %s (line %s) "
+                              "after the user block %s the next emitted instruction is %s (%s line %s) "
                               "with no mark_statement_address() in between: RESUME NEXT after an "
                               "error in the block's last statement continues at the wrong place"
-                              % (what, x.show(), x.line),
+                              % (what, x.show(), where.name, x.line),
                               {"function": fn.path, "path_blocks": list(path)})
             else:
                 ctx.ok(rule, key, loc, "mark (or return to the enclosing emitter) follows on every path")
@@ -243,7 +267,7 @@ def r5_register_frames(ctx, rule="C05.R5"):
     one = ctx.anchor_method("Interpreter", "interpret_one")
     sw, regions = _arm_regions(prog, one, "::Instruction")
     unwinding = {}
-    for v in ("Jump", "ResumeLabel", "ResumeNext", "Resume"):
+    for v in ("Jump", "ResumeLabel", "ResumeNext", "Resume", "PopRet", "PushRet"):
         names = _called_names(one.body, regions.get(v, ()))
         pv = mir.Prov(one.body)
         touches = False
@@ -273,8 +297,18 @@ def r5_register_frames(ctx, rule="C05.R5"):
                                "arm never unwinds register_stack: GOTO out of the loop body "
                                "leaves the frame pushed" % fn.name)
                     break
+    if n:
+        # EXIT SUB / EXIT FUNCTION (and END SUB reached by GOTO) leave a subprogram through PopRet:
+        # the frames its FOR loops pushed must not survive the call.  PushRet records the depth of the
+        # register stack, PopRet restores it.
+        ctx.decide(unwinding["PopRet"] and unwinding["PushRet"], rule, rule + ":PopRet:restores-register-frames", one.loc,
+                   "PushRet reads and PopRet restores the depth of register_stack",
+                   "a register frame brackets a user block, but leaving the subprogram (PopRet: EXIT SUB, EXIT "
+                   "FUNCTION) does not restore the register stack to its depth at the call (PushRet touches "
+                   "register_stack: %s, PopRet: %s): EXIT SUB inside a FOR body leaves the loop's frame pushed and "
+                   "the caller's FOR reads the callee's limit and step" % (unwinding["PushRet"], unwinding["PopRet"]))
     ctx.analysed_units(rule, frames=n)
-    ctx.require(rule, 1)
+    ctx.require(rule, 2)
 
 
 def r6_error_unwinding(ctx, rule="C05.R6"):
